@@ -55,11 +55,8 @@ theorem tree_sorted_step (s : AnState) (op : Op) (h : TreeSorted s.tree) : TreeS
     repeat' split
     all_goals first
       | exact h
-      | (rename_i hq _
-         have e : (if s.loaded.contains t = true then s else { s with loaded := t :: s.loaded }).tree = s.tree := by
-           split <;> rfl
-         rw [e] at hq
-         exact treeIns_sorted h hq)
+      | exact loadType_sorted _ _ h
+      | exact treeIns_sorted (loadType_sorted _ _ h) (by assumption)
   | writeann t annref text => simp only [step]; split <;> exact h
   | readann t annref maxlen => simp only [step]; split; exact h; split <;> exact h
   | annlen t annref => simp only [step]; split; exact h; split <;> exact h
@@ -159,44 +156,49 @@ theorem rewrite_keeps_identity (s : AnState) (t annref tag : Nat) (e : Entry) (t
 
 /-! ## read buffers -/
 
-/-- **reads stay inside the caller's buffer** when there is room for at least one text byte (labels: `maxlen ≥ 2`,
-    descriptions: `maxlen ≥ 1`).  Full statement (`∀ maxlen ≥ 1`) is FALSE: `readann_maxlen1_overruns`. -/
-theorem readann_within_buffer_partial (t len maxlen : Nat) (h : if isLabelType t then 2 ≤ maxlen else 1 ≤ maxlen) :
-    (readSpan t len maxlen).2 ≤ maxlen ∨ len = 0 := by
+/-- **reads stay inside the caller's buffer — full strength**: for EVERY text length and EVERY `maxlen` (labels need
+    room for their terminating NUL, `maxlen ≥ 1`; descriptions any `maxlen ≥ 0`) `ANreadann`/`DFANgetlabel`/`DFANgetdesc`
+    write at most `maxlen` bytes, and return the first `min len (maxlen − 1)` resp. `min len maxlen` bytes of the text.
+    History: before /repo d625c61 a label read with `maxlen = 1` (description: 0) passed the clipped length 0 to `Hread`
+    (= "to the end") and the whole text was written into the buffer; this file then carried
+    `readann_maxlen1_overruns` and the bounded `readann_within_buffer_partial`. -/
+theorem readann_within_buffer (t len maxlen : Nat) (h : isLabelType t = true → 1 ≤ maxlen) :
+    (readSpan t len maxlen).2 ≤ maxlen ∧
+    (readSpan t len maxlen).1 = (if isLabelType t then min len (maxlen - 1) else min len maxlen) := by
   unfold readSpan
   by_cases hl : isLabelType t = true
-  · simp only [hl, if_true] at h ⊢
-    by_cases h0 : len = 0
-    · right; exact h0
-    · left
-      have : ¬ min len (maxlen - 1) = 0 := by omega
-      simp only [this, if_false]; omega
-  · simp only [hl, if_false, Bool.false_eq_true] at h ⊢
-    by_cases h0 : len = 0
-    · right; exact h0
-    · left
-      have : ¬ min len maxlen = 0 := by omega
-      simp only [this, if_false]; omega
+  · have := h hl
+    simp [hl]; omega
+  · simp [hl]; omega
 
-/-- **Defect**: a label read with `maxlen = 1` (room for the terminating NUL only) clips the length to 0, which `Hread`
-    takes as "to the end of the element": the whole text is copied into the 1-byte buffer. -/
-theorem readann_maxlen1_overruns (len : Nat) (h : 1 < len) :
-    (readSpan AN_DATA_LABEL len 1).1 = 0 ∧ (readSpan AN_DATA_LABEL len 1).2 = len := by
-  have : isLabelType AN_DATA_LABEL = true := by decide
-  have h0 : ¬ len = 0 := by omega
-  simp [readSpan, this, h0]
-  omega
+example : readSpan AN_DATA_LABEL 22 1 = (0, 1) ∧ readSpan AN_DATA_DESC 22 0 = (0, 0) ∧ readSpan AN_FILE_LABEL 5 100 = (5, 6) := by decide
 
-/-! ## witnesses of two more behaviours of the code as it is -/
+/-! ## creation never hides what is already in the file -/
 
-/-- **Defect**: `ANcreate` as the first annotation call of a session creates the type's tree EMPTY without scanning the
-    file (`ANIaddentry`), so the annotations already in the file stay invisible for the whole session:
-    the file below holds two object labels, after `ANcreate` + `ANwriteann` of a third `ANfileinfo` reports one. -/
-theorem create_first_hides_existing :
+/-- **`ANcreate`/`ANcreatef` never hide existing annotations**: in whatever state of the session the call is made
+    (in particular as the very first annotation call, with no tree loaded), the type's tree afterwards contains every
+    entry that loading the type from the file yields, plus — on success — the new one; and the type counts as loaded.
+    History: before /repo d4a30b4 `ANIaddentry` created the tree EMPTY when it was not loaded yet, so all existing
+    annotations of the type were invisible until `ANend` (`create_first_hides_existing`, finding `an-create-hides`). -/
+theorem create_keeps_existing (s : AnState) (t etag eref annref : Nat) :
+    let s' := (step s (.create t etag eref annref)).1
+    (∀ p ∈ (loadType s t).tree, p ∈ s'.tree) ∨ (step s (.create t etag eref annref)).2 = .fail ∧ s'.tree = s.tree := by
+  simp only [step]
+  repeat' split
+  all_goals first
+    | (right; exact ⟨rfl, rfl⟩)
+    | (left; intro p hp; exact hp)
+    | (left; intro p hp; exact (treeIns_subset (by assumption)).1 p hp)
+
+/-- the former counter-example, now positive: a file with two object labels; `ANcreate` + `ANwriteann` of a third as the
+    first calls of the session; `ANfileinfo` reports three, and `ANannlist` lists all of them -/
+theorem create_first_sees_existing :
     let file : AnState := { elems := [((104, 1), [3, 232, 0, 5, 65]), ((104, 2), [3, 232, 0, 5, 66])] }
-    (step file .fileinfo).2 = .nats [0, 0, 2, 0] ∧
-    (step (step (step file (.create 0 1000 5 3)).1 (.writeann 0 3 [67])).1 .fileinfo).2 = .nats [0, 0, 1, 0] := by
+    let s := (step (step file (.create 0 1000 5 3)).1 (.writeann 0 3 [67])).1
+    (step s .fileinfo).2 = .nats [0, 0, 3, 0] ∧ (step s (.annlist 0 1000 5)).2 = .nats [3, 2, 1] := by
   decide
+
+/-! ## a behaviour of the code as it is that stays recorded as a finding -/
 
 /-- `ANwriteann` with an empty text reports failure although the element (with its target prefix) has been created -/
 theorem write_empty_fails_but_writes :
